@@ -1396,6 +1396,10 @@ class Stage:
                 subst_to.append(ret.t0)
             elif is_equal(k, self.t):
                 subst_to.append(ret.t)
+            elif is_equal(k, self.DT):
+                subst_to.append(ret.DT)
+            elif is_equal(k, self.DT_control):
+                subst_to.append(ret.DT_control)
             else:
                 subst_to.append(MX.sym(k.name(), k.sparsity()))
         for k_old, k_new in zip(subst_from, subst_to):
